@@ -24,6 +24,12 @@ theorem json_roundtrip (hs : IntStrOK) (d : List (Key × PV)) (hk : ∀ kv ∈ d
     roundTrip d = d.map fun kv => (kv.1, canon kv.2) :=
   Lemmas.json_roundtrip hs d hk
 
+/-- The integer formatting/parsing hypothesis holds for Lean's own `toString` on `Int` (the model's
+`intToStr`), so the key and dictionary round trips hold unconditionally in the model. -/
+theorem json_roundtrip_concrete (d : List (Key × PV)) (hk : ∀ kv ∈ d, KeyOK kv.1 ∧ WF kv.2) :
+    roundTrip d = d.map fun kv => (kv.1, canon kv.2) :=
+  Lemmas.json_roundtrip Lemmas.intStrOK d hk
+
 /-- the concrete recogniser accepts the decimal form of every integer, negative ones included -/
 theorem isIntString_neg_example : isIntString "-1" = true ∧ isIntString "12" = true ∧
     isIntString "1x" = false ∧ isIntString "-" = false ∧ isIntString "" = false :=
@@ -49,7 +55,8 @@ theorem tsv_first_field_first (render : Cell → String) (rows : List (List (Str
 
 /-! Non-vacuity -/
 example : decode (encode (.arr "int32" [3] [1, 2, 3])) = .list (.cons (.int 1) (.cons (.int 2) (.cons (.int 3) .nil))) := by
-  simp [encode, decode, decodeList, ofInts]
+  have hc : isComplexDtype "int32" = false := by decide
+  simp [encode, decode, decodeList, ofInts, hc]
 example : decode (encode (.list (.cons (.arr ">f4" [2, 2] [1, 2, 3, 4]) (.cons (.npScalar 7) .nil)))) =
     .list (.cons (.arr ">f4" [2, 2] [1, 2, 3, 4]) (.cons (.int 7) .nil)) := by
   simp [encode, encodeList, decode, decodeList, marker, findArr]
